@@ -13,7 +13,7 @@ THEOREMS = [
     "C07.included_only_first_partial", "C07.parent_builds_nearest", "C07.included_first_reported_partial",
     "C07.bump_build_reported_partial", "C07.reported_bump", "C07.skipped_version",
     "C07.included_first_spec_partial", "C07.included_first_exists_partial", "C07.included_first_git_partial",
-    "C07.analysis_total", "C07.analysis_registrations",
+    "C07.analysis_total", "C07.skipped_not_member", "C07.saved_detector", "C07.analysis_registrations",
 ]
 TEXT = "BUG-9"
 NAMES = ["app", "core", "lib", "mid", "util", "zeta"]        # repository id = position (sorted() order of the names)
@@ -23,7 +23,11 @@ RULE = ("col: 2-3 repositories (app->lib; app->lib,util; app->mid->lib), compone
         "inside the windows (40%), component builds days apart in any order w.r.t. its branches with the owner starting right "
         "inside the 1-day component cut-off of the oldest build the component must report (25%: a fix built on the newer "
         "line, backported later) or anywhere (10%, mostly not judged), both supply orders; ord: random dependency graphs over <=6 repositories incl. cycles, self-dependencies and "
-        "unknown components, shuffled supply order; 20% of the components are built from master with a version file that is "
+        "unknown components, shuffled supply order; entries that the constructor skips (a path whose id has no repository class, "
+        "in the three documented value formats) - in 20% of the scenarios, mostly named as a component by the others - and "
+        "ready objects given as object / (object, remote) / (object, None); 25% of the components and 15% of the owners keep "
+        "their build number in a file and use the saved-number builds detector (builds = bumps of the number, merges carry "
+        "the old number of the first or of another parent); 20% of the components are built from master with a version file that is "
         "bumped between builds; 15% of the tagged commits also carry the first build tag of the next release line (higher "
         "version, lower build counter); about half of the refs of the git stand-in are loose; parent and mid branch names also with numbers of different width "
         "(release/5.9 vs release/5.10); the component map of a repository is configured on the class, on the object only, or "
@@ -33,7 +37,9 @@ RULE = ("col: 2-3 repositories (app->lib; app->lib,util; app->mid->lib), compone
 TRUSTED = ["tests/mock_git.py (synthetic git objects fed to the real ak.ghist code)",
            "sorted() on repository names (the model sorts the ranks of the names)",
            "iteration order of the set `relevant_cmpnts` is not observable: bumps are compared sorted by component"]
-ASSUMPTIONS = ["commit times inside the cut-off windows (quantifier): inside a repository at most 30 days between a branch head and any "
+ASSUMPTIONS = ["repositories that keep their build number in a file (RepoBuildsBySavedBuildNumDetector): the release heads are "
+               "builds (the code shows the saved number for a head that is no build, the model's 'not built' cannot say that)",
+               "commit times inside the cut-off windows (quantifier): inside a repository at most 30 days between a branch head and any "
                "younger commit, no parent commit a day or more older than the oldest build the component's report must show - the "
                "earliest builds containing a matching commit, computed from the history (Hist.InWindow, "
                "CompWindow in the theorems; outside, model and code are compared, the oracle does not judge)",
@@ -53,11 +59,13 @@ def enc_commit(c, i=None):
 
 
 def enc_repo(r):
+    if r.get("skipped"):
+        return "%d@!" % NAMES.index(r["name"])
     h = r["hist"]
     commits = ";".join(enc_commit(c, i) for i, c in enumerate(h["commits"])) or "-"
     refs = ";".join("%s:%d" % (enc_str(G.REMOTE + "/" + n), hd) for n, hd in G.ref_order(h["refs"])) or "-"
     deps = ",".join(str(NAMES.index(d)) for d in r["deps"]) or "-"
-    return "%d@%s@%s@%s" % (NAMES.index(r["name"]), deps, commits, refs)
+    return "%d@%s@%s@%s@%s" % (NAMES.index(r["name"]), deps, commits, refs, "s" if r.get("mode") == "saved" else "t")
 
 
 def enc_col(repos):
@@ -65,11 +73,16 @@ def enc_col(repos):
 
 
 def dec_repo(tok):
-    i, d, cs, rs = tok.split("@")
+    if tok.endswith("@!"):
+        return {"name": NAMES[int(tok[:-2])], "deps": [], "hist": {"commits": [], "refs": []}, "skipped": True}
+    i, d, cs, rs, mode = tok.split("@")
     commits = []
     if cs != "-":
         for t in cs.split(";"):
             p, tg, m, ts, sv, pins = t.split(":")
+            sv3 = None
+            if mode == "s":
+                sv3, sv = [int(x) for x in sv.split(".")], "-"
             bns, other = G.dec_tags(tg, sv)
             c = {"p": [] if p == "-" else [int(x) for x in p.split(",")], "t": bns,
                  "m": int(m), "ts": int(ts), "pins": {}}
@@ -78,6 +91,8 @@ def dec_repo(tok):
             c["names"] = [] if tg == "-" else [dec_str(x) for x in tg.split("+")]
             if sv != "-":
                 c["sv"] = [int(x) for x in sv.split(".")]
+            if sv3 is not None:
+                c["sv3"] = sv3
             if pins != "-":
                 for q in pins.split("+"):
                     k, v = q.split("=")
@@ -88,26 +103,39 @@ def dec_repo(tok):
         for t in rs.split(";"):
             n, hd = t.split(":")
             refs.append([dec_str(n)[len(G.REMOTE) + 1:], int(hd)])
-    return {"name": NAMES[int(i)], "deps": [] if d == "-" else [NAMES[int(x)] for x in d.split(",")],
-            "hist": {"commits": commits, "refs": refs}}
+    if mode == "s":
+        # builds of a repository that keeps its build number in a file: "a build is created when the saved number is
+        # bumped" - the commits whose number differs from the number of every parent (the harness' own reading)
+        for c in commits:
+            bumped = all(commits[q]["sv3"] != c["sv3"] for q in c["p"])
+            c["t"] = [c["sv3"] + [c["sv3"][2]]] if bumped else []
+            c["names"] = []
+    out = {"name": NAMES[int(i)], "deps": [] if d == "-" else [NAMES[int(x)] for x in d.split(",")],
+           "hist": {"commits": commits, "refs": refs}}
+    if mode == "s":
+        out["mode"] = "saved"
+    return out
 
 
 # ------------------------------------------------------------------ real code
-def _classes(deps_by_name, cfg="class", loc=lambda d: "DEP_" + d):
+def _classes(deps_by_name, cfg="class", loc=lambda d: "DEP_" + d, saved=()):
     """factories of ProjectRepo objects whose component map (`_COMPONENTS_VERSIONS_LOCATIONS`) is configured
     * "class"    : on the class (a subclass per repository, as in the package's tests),
     * "instance" : on the object only (one generic class, the class-level map is the empty default),
     * "both"     : on the object, while the class carries another map (every other repository: cycles everywhere) -
                    the object's own attribute is the one that counts"""
     k = G.repo_classes()
+    from ak.ghist import RepoBuildsBySavedBuildNumDetector
     out = {}
     for name, deps in deps_by_name.items():
         real = {d: loc(d) for d in deps}
+        # repositories that keep their build number in a file select the other builds detector (the documented hook)
+        extra = {"make_builds_detector": lambda self: RepoBuildsBySavedBuildNumDetector(self)} if name in saved else {}
         if cfg == "class":
-            out[name] = type("Repo_" + name, (k["StdTestRepo"],), {"_COMPONENTS_VERSIONS_LOCATIONS": real})
+            out[name] = type("Repo_" + name, (k["StdTestRepo"],), dict(extra, _COMPONENTS_VERSIONS_LOCATIONS=real))
             continue
-        attrs = {} if cfg == "instance" else \
-            {"_COMPONENTS_VERSIONS_LOCATIONS": {d: loc(d) for d in deps_by_name if d != name}}
+        attrs = dict(extra) if cfg == "instance" else \
+            dict(extra, _COMPONENTS_VERSIONS_LOCATIONS={d: loc(d) for d in deps_by_name if d != name})
         cls = type("Repo_" + name, (k["StdTestRepo"],), attrs)
 
         def make(*a, _cls=cls, _real=real):
@@ -141,10 +169,16 @@ def _repo_text(rid, rg):
 
 def run_col(repos, cfg="class"):
     from ak.ghist import ReposCollection
-    cls = _classes({r["name"]: r["deps"] for r in repos}, cfg)
+    kept = [r for r in repos if not r.get("skipped")]
+    cls = _classes({r["name"]: r["deps"] for r in kept}, cfg, saved=[r["name"] for r in kept if r.get("mode") == "saved"])
     objs = {}
-    for r in repos:
-        objs[r["name"]] = cls[r["name"]](r["name"], G.mock_repo(r["hist"], r["name"], TEXT, pins_file="DEP_"), G.REMOTE)
+    for j, r in enumerate(repos):
+        if r.get("skipped"):
+            # a path whose id has no class in _REPOS_TYPES, in one of the documented formats: skipped with a warning
+            objs[r["name"]] = ["/no/such/repo", ("/no/such/repo", "origin"), ("/no/such/repo", None)][j % 3]
+            continue
+        obj = cls[r["name"]](r["name"], G.mock_repo(r["hist"], r["name"], TEXT, pins_file="DEP_"), G.REMOTE)
+        objs[r["name"]] = [obj, (obj, G.REMOTE), (obj, None)][(j + len(repos)) % 3]
     rc = ReposCollection(objs)
     data = dict(rc.make_reports_data(TEXT))
     # the collection can be asked again: the second answer must not depend on the first call
@@ -167,16 +201,25 @@ def impl(case):
         try:
             if op == "ord":
                 from ak.ghist import ReposCollection
-                deps = {}
+                deps, supplied = {}, []
                 for tok in args:
                     i, d = tok.split("@")
-                    deps[NAMES[int(i)] if int(i) < len(NAMES) else "n%d" % int(i)] = \
-                        [] if d == "-" else [(NAMES[int(x)] if int(x) < len(NAMES) else "zz%d" % int(x)) for x in d.split(",")]
+                    name = NAMES[int(i)] if int(i) < len(NAMES) else "n%d" % int(i)
+                    supplied.append((name, d == "!"))
+                    if d != "!":
+                        deps[name] = [] if d == "-" else \
+                            [(NAMES[int(x)] if int(x) < len(NAMES) else "zz%d" % int(x)) for x in d.split(",")]
 
                 class FakeGit:
                     remotes = {}
                 cls = _classes(deps, cfg, loc=lambda d: "DEP")
-                objs = {name: cls[name](name, FakeGit(), G.REMOTE) for name in deps}
+                objs = {}
+                for j, (name, skipped) in enumerate(supplied):
+                    if skipped:     # a path whose id has no class in _REPOS_TYPES: the constructor skips it
+                        objs[name] = ["/no/such/repo", ("/no/such/repo", "origin"), ("/no/such/repo", None)][j % 3]
+                    else:
+                        obj = cls[name](name, FakeGit(), G.REMOTE)
+                        objs[name] = [obj, (obj, G.REMOTE), (obj, None)][(j + len(supplied)) % 3]
                 rc = ReposCollection(objs)
                 out.append("ok " + (",".join(str(NAMES.index(x)) for x in rc.sorted_repos) or "-"))
             elif op == "col":
@@ -239,6 +282,8 @@ def oracle(case, replies):
             deps = {}
             for tok in args:
                 i, d = tok.split("@")
+                if d == "!":
+                    continue            # skipped by the constructor: not a member of the collection
                 deps[int(i)] = [] if d == "-" else [int(x) for x in d.split(",")]
             cyc = has_cycle(deps)
             if cyc:
@@ -252,7 +297,7 @@ def oracle(case, replies):
             if msg:
                 return msg
         elif op == "col":
-            repos = [dec_repo(t) for t in args[1:]]
+            repos = [r for r in (dec_repo(t) for t in args[1:]) if not r.get("skipped")]
             deps = {NAMES.index(r["name"]): [NAMES.index(d) for d in r["deps"]] for r in repos}
             if has_cycle(deps):
                 if rep != "err ValueError":
@@ -576,11 +621,29 @@ def tag_nums(i, c):
     return [10 * i + 1, 10 * i + 2] if c.get("two") else [10 * i + 1]
 
 
+def to_saved(rng, commits, heads):
+    """the repository keeps its build number in a file (RepoBuildsBySavedBuildNumDetector): a build is a commit that
+    bumps the number; the roots and the branch heads are builds; a commit that is no build carries the number of one of
+    its parents - for a merge any of them, so that the old number may come from the first or from another parent"""
+    hs = {hd for _, hd in heads}
+    for i, c in enumerate(commits):
+        c["two"] = False
+        c["xl"] = False
+        c["svmode"] = True
+        if not c["p"] or i in hs:
+            c["tagged"] = True
+        c["svp"] = rng.randrange(len(c["p"])) if c["p"] else 0
+
+
 def finish_repo(commits, heads):
     for i, c in enumerate(commits):
         M, m = cver(c)
         tagged = c.pop("tagged")
         c["t"] = [[M, m, n, n] for n in tag_nums(i, c)] if tagged else []
+        if c.pop("svmode", False):
+            c["sv3"] = [M, m, 10 * i + 1] if tagged else list(commits[c["p"][c["svp"]]]["sv3"])
+            c["names"] = []             # no build tags: the builds are the bumps of the saved number
+        c.pop("svp", None)
         if tagged and c.get("xl") and M < G.MASTER_STYLE_FROM:
             # the commit is also the first build of the next release line (fork point): a higher version with a
             # LOWER build counter - the order of the build numbers is not the order of the counters
@@ -667,6 +730,13 @@ def gen_col(rng, shape, lib_lines):
             aheads.append(["master", rng.randrange(n)])
     else:
         app, aheads = gen_repo(rng, 3, APP_LINES if rng.random() < 0.5 else rng.choice(APP_LINES_W))
+    saved = set()
+    if rng.random() < 0.25:
+        saved.add("lib")
+        to_saved(rng, lib, lheads)
+    if rng.random() < 0.15:
+        saved.add("app")
+        to_saved(rng, app, aheads)
     repos = []
     if shape.startswith("dag"):
         add_pins_dag(rng, app, "lib", lib, lheads[0][1], monotone=(shape != "dag-numeric"))
@@ -695,6 +765,17 @@ def gen_col(rng, shape, lib_lines):
         raw = {"app": (app, aheads), "lib": (lib, lheads), "mid": (mid, mheads)}
     for r in repos:
         r["hist"] = finish_repo(*raw[r["name"]])
+        if r["name"] in saved:
+            r["mode"] = "saved"
+    if rng.random() < 0.2:
+        # an entry that the constructor skips (a path whose id has no repository class), named as a component by some
+        # of the others: it is no member of the collection
+        free = [n for n in NAMES if n not in [r["name"] for r in repos]]
+        sk = rng.choice(free)
+        for r in repos:
+            if rng.random() < 0.6 and sk not in r["deps"]:
+                r["deps"] = r["deps"] + [sk]
+        repos.append({"name": sk, "deps": [], "hist": {"commits": [], "refs": []}, "skipped": True})
     if rng.random() < 0.25:
         unknown_early_pins(rng, repos)
     if rng.random() < 0.2:
@@ -800,7 +881,11 @@ def gen_ord(rng, nmax=6):
     ids = rng.sample(range(len(NAMES)), n)
     toks = []
     dens = rng.choice([0.06, 0.12, 0.25])
+    pskip = rng.choice([0, 0, 0.15, 0.3])
     for a in ids:
+        if rng.random() < pskip:
+            toks.append("%d@!" % a)         # supplied as a path of unknown type: skipped by the constructor
+            continue
         ds = [b for b in ids + [9] if rng.random() < dens]
         rng.shuffle(ds)
         toks.append("%d@%s" % (a, ",".join(str(x) for x in ds) or "-"))
@@ -938,6 +1023,12 @@ def tags(case, replies):
     yield "components-map-on:" + case.get("meta", {}).get("cfg", "class")
     if case["lines"][0].startswith("col"):
         rs = [dec_repo(t) for t in case["lines"][0].split()[2:]]
+        if any(r.get("mode") == "saved" for r in rs):
+            yield "saved-number-detector"
+        if any(r.get("skipped") for r in rs):
+            yield "skipped-entry-named-as-component" if any(x["name"] in r["deps"] for r in rs for x in rs if x.get("skipped")) \
+                else "skipped-entry"
+        rs = [r for r in rs if not r.get("skipped")]
         if not in_windows(rs):
             yield "outside-cut-off-windows(not judged)"
         elif any(max(c["ts"] for c in r["hist"]["commits"]) - min(c["ts"] for c in r["hist"]["commits"]) > G.DAY
@@ -948,6 +1039,8 @@ def tags(case, replies):
         elif known_component_merges(case):
             yield "component-with-merges(not judged)"
     rep = replies[0]
+    if case["lines"][0].startswith("ord") and "@!" in case["lines"][0]:
+        yield "ord-with-skipped-entry"
     if rep.startswith("err"):
         yield "reply:" + rep
     elif case["lines"][0].startswith("col"):
@@ -968,7 +1061,9 @@ LEVEL_TEXT = ("Repository ordering is fully proved on the model the driver runs 
               "graphs incl. self-dependencies (cycle_rejected) and nothing else can happen (repo_order_total). The whole "
               "multi-repository analysis is total (analysis_total): a dependency cycle's ValueError or the reports, none of the "
               "code's KeyError/AttributeError/TypeError/assertions is reachable, whatever the commit times, the pinned versions "
-              "(known or not) and the build graphs are. What the driver prints is linked to the objects of the theorems by analysis_registrations (the "
+              "(known or not) and the build graphs are. An entry skipped by the constructor is no member of the collection (skipped_not_member), the saved-number builds "
+              "detector makes a commit a build exactly when its number differs from every parent's (saved_detector). What the "
+              "driver prints is linked to the objects of the theorems by analysis_registrations (the "
               "graphs are rgraph of each history with the plug of the components analysed before, the printed included_at "
               "entries are exactly the results of regsOfBuild); the hypotheses of the conditional theorems are shown to be "
               "satisfiable, with a non-empty set of registrations, on a concrete diamond scenario (examples at the end of "
